@@ -1,6 +1,6 @@
 import Driver.Proto
 import ScrapliModel.Telnet
-namespace Driver
+namespace Driver.C15
 open Scrapli Scrapli.Telnet
 
 def showSt (s : St) : String := s!"{toHex s.ctrl} {toHex s.data} {showHexList s.replies}"
@@ -32,4 +32,4 @@ def handleC15 : List String → String
     | _, _, _ => "bad-op"
   | _ => "bad-op"
 
-end Driver
+end Driver.C15
